@@ -137,7 +137,7 @@ func c41KeyTable(c *engine.Ctx, p *engine.Prog) map[string]map[string][]c41Use {
 			scan(func(f *engine.Fn, e ast.Expr) bool { return sfDerives(f, e, isKey(f.Info()), 2) })
 			// every other reference to the builder must be one of those call sites (no stray use)
 			refs := engine.CallerSet(p.RefsTo(func(o types.Object) bool { return o == target }))
-			extra := engine.SetDiff(refs, append(append([]string{}, k.writers...), k.readers...))
+			extra := sfWritersOK(p, refs, append(append([]string{}, k.writers...), k.readers...))
 			if strings.HasSuffix(k.builder, "CalcABCIResponsesKey") || strings.HasSuffix(k.builder, "CalcTxResultKey") {
 				extra = nil // exported builders are also used by other packages for reads
 			}
@@ -163,10 +163,10 @@ func c41KeyTable(c *engine.Ctx, p *engine.Prog) map[string]map[string][]c41Use {
 			})
 		}
 		n++
-		c.Check("key-namespace", k.builder+" writers", token.NoPos, sfEq(c22Uniq(sfSorted(writers...)), sfSorted(k.writers...)) && len(others) == 0,
+		c.Check("key-namespace", k.builder+" writers", token.NoPos, len(writers) >= 1 && len(sfWritersOK(p, c22Uniq(sfSorted(writers...)), k.writers)) == 0 && len(others) == 0,
 			"functions writing under this key: "+join(c22Uniq(sfSorted(writers...)))+"; expected "+join(k.writers))
 		n++
-		c.Check("key-namespace", k.builder+" readers", token.NoPos, sfEq(c22Uniq(sfSorted(readers...)), sfSorted(k.readers...)),
+		c.Check("key-namespace", k.builder+" readers", token.NoPos, len(readers) >= 1 && len(sfWritersOK(p, c22Uniq(sfSorted(readers...)), k.readers)) == 0,
 			"functions reading under this key: "+join(c22Uniq(sfSorted(readers...)))+"; expected "+join(k.readers))
 	}
 	c.Floor("key-namespace", n, 30)
@@ -383,83 +383,87 @@ func c41HeightArgs(c *engine.Ctx, p *engine.Prog) {
 	n := 0
 	f := c.MustFunc(c41BS + ".(*BlockStore).SaveBlock")
 	if f != nil {
-		info := f.Info()
-		blockP, seenP := paramObj(f, 0), paramObj(f, 2)
-		// height := block.Height
-		var hObj types.Object
-		engine.InspectBody(f, func(x ast.Node) {
-			as, ok := x.(*ast.AssignStmt)
-			if !ok || as.Tok != token.DEFINE || len(as.Lhs) != 1 || len(as.Rhs) != 1 {
-				return
+		// roles, resolved through locals and helper parameters:
+		//   height  = <root param 0 (block)>.Height      seenCommit = root param 2
+		fieldOfParam := func(name string, param int) func(*sfCtx, ast.Expr) bool {
+			return func(cx *sfCtx, x ast.Expr) bool {
+				se, ok := ast.Unparen(x).(*ast.SelectorExpr)
+				return ok && se.Sel.Name == name && sfRootParam(cx, se.X) == param
 			}
-			if se, isSel := ast.Unparen(as.Rhs[0]).(*ast.SelectorExpr); isSel && se.Sel.Name == "Height" && engine.ObjOf(info, se.X) == blockP {
-				hObj = engine.ObjOf(info, as.Lhs[0])
-			}
-		})
-		n++
-		c.Check("height-arg", f.Name+" height is block.Height", f.Pos(), hObj != nil, "")
-		isH := func(e ast.Expr) bool { return hObj != nil && engine.ObjOf(info, e) == hObj }
-		isHm1 := func(e ast.Expr) bool {
-			b, ok := ast.Unparen(e).(*ast.BinaryExpr)
-			return ok && b.Op == token.SUB && isH(b.X) && sfIsIntLit(b.Y, "1")
 		}
-		valueFrom := func(e ast.Expr, pred func(ast.Expr) bool) bool {
-			// value bytes := amino.MustMarshal(<pred>)
-			return sfDerives(f, e, func(x ast.Expr) bool {
+		isH := func(cx *sfCtx, e ast.Expr) bool { return sfOperandIs(cx, e, fieldOfParam("Height", 0)) }
+		isHm1 := func(cx *sfCtx, e ast.Expr) bool {
+			return sfOperandIs(cx, e, func(c2 *sfCtx, x ast.Expr) bool {
+				b, ok := ast.Unparen(x).(*ast.BinaryExpr)
+				if !ok || b.Op != token.SUB || !isH(c2, b.X) {
+					return false
+				}
+				k, isK := sfConstInt(c2.fn.Info(), b.Y)
+				return isK && k == 1
+			})
+		}
+		// value bytes originate from amino.<Marshal>(X) with X satisfying pred
+		valueFrom := func(cx *sfCtx, e ast.Expr, pred func(*sfCtx, ast.Expr) bool) bool {
+			return sfOperandIs(cx, e, func(c2 *sfCtx, x ast.Expr) bool {
 				cl, ok := ast.Unparen(x).(*ast.CallExpr)
-				return ok && len(cl.Args) == 1 && c41Codec[sfCallee(info, cl)] != "" && sfDerives(f, cl.Args[0], pred, 2)
-			}, 2)
+				return ok && len(cl.Args) == 1 && c41Codec[sfCallee(c2.fn.Info(), cl)] != "" && sfOperandIs(c2, cl.Args[0], pred)
+			})
 		}
-		for _, s := range f.CallsTo(c41DBI + "Set") {
-			kc, ok := ast.Unparen(s.Call.Args[0]).(*ast.CallExpr)
+		stopPart := func(nm string) bool { return nm == c41BS+".(*BlockStore).saveBlockPart" }
+		seen := map[string]int{}
+		for _, d := range sfDeepCalls(f, 2, stopPart, func(cx *sfCtx, st *engine.Site) bool { return st.CalleeName() == c41DBI+"Set" }) {
+			kc, ok := ast.Unparen(d.arg(0)).(*ast.CallExpr)
 			if !ok || len(kc.Args) == 0 {
 				continue
 			}
-			switch sfCallee(info, kc) {
+			switch nm := sfCallee(d.info(), kc); nm {
 			case c41BS + ".calcBlockCommitKey":
+				seen[nm]++
 				n++
-				c.Check("height-arg", f.Name+" block.LastCommit saved under height-1", s.Pos(),
-					isHm1(kc.Args[0]) && valueFrom(s.Call.Args[1], func(x ast.Expr) bool {
-						se, isSel := ast.Unparen(x).(*ast.SelectorExpr)
-						return isSel && se.Sel.Name == "LastCommit" && engine.ObjOf(info, se.X) == blockP
-					}), "LoadBlockCommit(h) must return the commit FOR block h, which travels in block h+1")
+				c.Check("height-arg", f.Name+" block.LastCommit saved under height-1", d.where(),
+					isHm1(d.ctx, kc.Args[0]) && valueFrom(d.ctx, d.arg(1), fieldOfParam("LastCommit", 0)),
+					"LoadBlockCommit(h) must return the commit FOR block h, which travels in block h+1")
 			case c41BS + ".calcSeenCommitKey":
+				seen[nm]++
 				n++
-				c.Check("height-arg", f.Name+" seenCommit saved under height", s.Pos(),
-					isH(kc.Args[0]) && valueFrom(s.Call.Args[1], func(x ast.Expr) bool { return engine.ObjOf(info, x) == seenP }), "")
+				c.Check("height-arg", f.Name+" seenCommit saved under height", d.where(),
+					isH(d.ctx, kc.Args[0]) && valueFrom(d.ctx, d.arg(1), func(c2 *sfCtx, x ast.Expr) bool { return sfRootParam(c2, x) == 2 }), "")
 			case c41BS + ".calcBlockMetaKey":
+				seen[nm]++
 				n++
-				c.Check("height-arg", f.Name+" block meta saved under height", s.Pos(),
-					isH(kc.Args[0]) && valueFrom(s.Call.Args[1], func(x ast.Expr) bool {
-						cl, isC := sfIsCallTo(info, x, "tm2/pkg/bft/types.NewBlockMeta")
-						return isC && engine.ObjOf(info, cl.Args[0]) == blockP
+				c.Check("height-arg", f.Name+" block meta saved under height", d.where(),
+					isH(d.ctx, kc.Args[0]) && valueFrom(d.ctx, d.arg(1), func(c2 *sfCtx, x ast.Expr) bool {
+						cl, isC := sfIsCallTo(c2.fn.Info(), x, "tm2/pkg/bft/types.NewBlockMeta")
+						return isC && sfRootParam(c2, cl.Args[0]) == 0
 					}), "")
 			}
 		}
+		n++
+		c.Check("height-arg", f.Name+" saves meta, commit and seen commit", f.Pos(), len(seen) == 3, "")
 		// parts: saveBlockPart(height, i, blockParts.GetPart(i))
-		for _, s := range f.CallsTo(c41BS + ".(*BlockStore).saveBlockPart") {
-			a := s.Call.Args
-			iObj := engine.ObjOf(info, a[1])
-			ok := isH(a[0]) && iObj != nil && sfDerives(f, a[2], func(x ast.Expr) bool {
-				cl, isC := sfIsCallTo(info, x, "tm2/pkg/bft/types.(*PartSet).GetPart")
-				return isC && engine.ObjOf(info, cl.Args[0]) == iObj
-			}, 2)
+		for _, d := range sfDeepCallsTo(f, 2, c41BS+".(*BlockStore).saveBlockPart") {
+			a := d.site.Call.Args
+			iObj := engine.ObjOf(d.info(), a[1])
+			ok := isH(d.ctx, a[0]) && iObj != nil && sfOperandIs(d.ctx, a[2], func(c2 *sfCtx, x ast.Expr) bool {
+				cl, isC := sfIsCallTo(c2.fn.Info(), x, "tm2/pkg/bft/types.(*PartSet).GetPart")
+				return isC && engine.ObjOf(c2.fn.Info(), cl.Args[0]) == iObj
+			})
 			n++
-			c.Check("height-arg", f.Name+" part i saved under (height, i)", s.Pos(), ok, "")
+			c.Check("height-arg", f.Name+" part i saved under (height, i)", d.where(), ok, "")
 		}
 		// descriptor
-		for _, s := range f.CallsTo(c41BS + ".(BlockStoreStateJSON).Save") {
+		for _, d := range sfDeepCallsTo(f, 2, c41BS+".(BlockStoreStateJSON).Save") {
 			ok := false
-			ast.Inspect(s.Call.Fun, func(x ast.Node) bool {
+			ast.Inspect(d.site.Call.Fun, func(x ast.Node) bool {
 				if kv, isKV := x.(*ast.KeyValueExpr); isKV {
-					if id, isId := kv.Key.(*ast.Ident); isId && id.Name == "Height" && isH(kv.Value) {
+					if id, isId := kv.Key.(*ast.Ident); isId && id.Name == "Height" && isH(d.ctx, kv.Value) {
 						ok = true
 					}
 				}
 				return true
 			})
 			n++
-			c.Check("height-arg", f.Name+" descriptor records height", s.Pos(), ok, "")
+			c.Check("height-arg", f.Name+" descriptor records height", d.where(), ok, "")
 		}
 	}
 	if f := c.MustFunc(c41BS + ".(*BlockStore).saveBlockPart"); f != nil {
@@ -619,7 +623,30 @@ func c41SaveGuards(c *engine.Ctx, p *engine.Prog) {
 			}
 		})
 		var writes []*engine.Site
-		writes = append(writes, f.CallsTo(c41DBI+"Set", c41DBI+"SetSync", c41BS+".(*BlockStore).saveBlockPart", c41BS+".(BlockStoreStateJSON).Save")...)
+		innerLabel := map[*engine.Site]string{}
+		stopW := func(nm string) bool {
+			return nm == c41BS+".(*BlockStore).saveBlockPart" || nm == c41BS+".(BlockStoreStateJSON).Save"
+		}
+		for _, d := range sfDeepCalls(f, 2, stopW, func(cx *sfCtx, st *engine.Site) bool {
+			return engine.MatchName(st.CalleeName(), c41DBI+"Set", c41DBI+"SetSync", c41BS+".(*BlockStore).saveBlockPart", c41BS+".(BlockStoreStateJSON).Save")
+		}) {
+			o := d.outer()
+			if o == nil {
+				continue
+			}
+			lb := d.callee()
+			if len(d.site.Call.Args) > 0 {
+				if kc, ok := ast.Unparen(d.arg(0)).(*ast.CallExpr); ok {
+					lb += "(" + sfCallee(d.info(), kc) + ")"
+				}
+			}
+			if _, dup := innerLabel[o]; !dup {
+				writes = append(writes, o)
+				innerLabel[o] = lb
+			} else if d.direct() {
+				innerLabel[o] = lb
+			}
+		}
 		heightF := p.Field(c41BS + ".BlockStore.height")
 		var hw *engine.Site
 		engine.InspectBody(f, func(x ast.Node) {
@@ -634,16 +661,12 @@ func c41SaveGuards(c *engine.Ctx, p *engine.Prog) {
 			// persisted descriptor first
 			sv := f.CallsTo(c41BS + ".(BlockStoreStateJSON).Save")
 			n++
-			c.Check("height-writer", f.Name+" persists the descriptor before publishing the height", hw.Pos(), len(sv) == 1 && f.Graph().Dominates(sv[0], hw), "")
+			c.Check("height-writer", f.Name+" persists the descriptor before publishing the height", hw.Pos(), len(sv) >= 1 && f.Graph().Dominates(sv[0], hw), "")
 		}
 		for _, s := range writes {
-			label := s.CalleeName()
+			label := innerLabel[s]
 			if s.Call == nil {
 				label = "bs.height ="
-			} else if len(s.Call.Args) > 0 {
-				if kc, ok := ast.Unparen(s.Call.Args[0]).(*ast.CallExpr); ok {
-					label += "(" + sfCallee(info, kc) + ")"
-				}
 			}
 			okC, whyC := c41Contiguity(f, s, hObj)
 			n++
@@ -709,6 +732,11 @@ func c41Checkpoint(c *engine.Ctx, p *engine.Prog) {
 				}
 				eq, cp := false, false
 				for _, d := range dj {
+					if id, isId := ast.Unparen(d).(*ast.Ident); isId {
+						if def := sfSingleDef(f, info.ObjectOf(id)); def != nil {
+							d = def // hoisted boolean
+						}
+					}
 					a, b, op, isC := sfCmp(d)
 					if !isC || op != token.EQL {
 						continue
@@ -766,7 +794,7 @@ func c41Checkpoint(c *engine.Ctx, p *engine.Prog) {
 		vsF := p.Field(c41ST + ".ValidatorsInfo.ValidatorSet")
 		loads := f.CallsTo(c41ST + ".loadValidatorsInfo")
 		lsh := f.CallsTo(c41ST + ".lastStoredHeightFor")
-		ok := len(loads) == 3 && len(lsh) == 1
+		ok := len(loads) >= 2 && len(lsh) == 1
 		var lshObj types.Object
 		if ok {
 			a := lsh[0].Call.Args
